@@ -1,7 +1,9 @@
 #!/usr/bin/env python3
 """Keep confirmed seeded changes under /verif/seeded/<id>/ (patch.diff, demo.sh, meta.json)."""
 import json, os, re, shutil, sys
-SRC = "/tmp/seed-out"
+SRC = sys.argv[1] if len(sys.argv) > 1 else "/tmp/seed-out"
+EVAL = sys.argv[2] if len(sys.argv) > 2 else "/tmp/seedeval"
+SUFFIX = sys.argv[3] if len(sys.argv) > 3 else ""
 kept = []
 for d in sorted(os.listdir(SRC)):
     p = os.path.join(SRC, d)
@@ -12,13 +14,13 @@ for d in sorted(os.listdir(SRC)):
         continue
     conf = json.load(open(need[3]))
     ok = conf.get("applies") and conf.get("builds") and conf.get("demo_orig_exit") == 0 and conf.get("demo_mutant_exit", 0) != 0 and "other failures: 0" in conf.get("tests", "")
-    log = f"/tmp/seedeval/{d}.log"
+    log = f"{EVAL}/{d}.log"
     det = {"ran": None}
     if os.path.exists(log):
         t = open(log).read()
         m = re.search(r"seedtest (\S+) rc=(\d+)", t)
         sigs = [l.split("# ", 1)[1].strip() for l in t.splitlines() if l.startswith("VIOLATION") and "# " in l]
-        det = {"ran": f"tools/seedtest.sh seeded/{d}/patch.diff {d[:3]} quick", "exit": int(m.group(2)) if m else None, "violations": len(sigs), "signatures": sigs[:8]}
+        det = {"ran": f"tools/seedtest.sh seeded/{d}{SUFFIX}/patch.diff {d[:3]} quick", "exit": int(m.group(2)) if m else None, "violations": len(sigs), "signatures": sigs[:8]}
     try:
         meta = json.load(open(need[2]))
     except ValueError:
@@ -30,11 +32,11 @@ for d in sorted(os.listdir(SRC)):
     if not ok:
         print("NOT kept", d, conf)
         continue
-    out = f"/verif/seeded/{d}"
+    out = f"/verif/seeded/{d}{SUFFIX}"
     os.makedirs(out, exist_ok=True)
     shutil.copy(need[0], out)
     shutil.copy(need[1], out)
     json.dump(meta, open(os.path.join(out, "meta.json"), "w"), indent=1, ensure_ascii=False)
-    kept.append((d, det.get("exit"), det.get("violations")))
+    kept.append((d + SUFFIX, det.get("exit"), det.get("violations")))
 for k in kept:
     print(*k)
